@@ -180,3 +180,36 @@ MUTANTS += [
     ('C01', 'last_client_twice_when_7', [(FA, "    mean_delta_params = tree_util.tree_inverse_weight(delta_params_sum,\n                                                      num_examples_sum)\n    server_state = server_update", "    if len(clients) == 7:\n      num_examples_sum += 1\n    mean_delta_params = tree_util.tree_inverse_weight(delta_params_sum,\n                                                      num_examples_sum)\n    server_state = server_update")],
      'normaliser off by one only for cohorts of exactly 7 clients'),
 ]
+
+AP = 'fedjax/algorithms/apfl.py'
+AG = 'fedjax/algorithms/agnostic_fed_avg.py'
+HY = 'fedjax/algorithms/hyp_cluster.py'
+CO = 'fedjax/aggregators/compression.py'
+ML = 'fedjax/algorithms/mime_lite.py'
+MI = 'fedjax/algorithms/mime.py'
+FP = 'fedjax/algorithms/fed_prox.py'
+MUTANTS += [
+    # ---------------------------------------------------------------- C10
+    ('C10', 'apfl_writes_into_argument', [(AP, "    client_states = dict(server_state.client_states)\n", "    client_states = server_state.client_states\n")],
+     're-introduces D4'),
+    ('C10', 'fedavg_hidden_call_counter', [(FA, "  def apply(\n      server_state: ServerState,", "  calls = [0]\n\n  def apply(\n      server_state: ServerState,"),
+                                           (FA, "    num_examples_sum = 0.\n", "    calls[0] += 1\n    num_examples_sum = 0. if calls[0] % 3 else 1e-3\n")],
+     'hidden state in a closure: every third call is computed differently'),
+    ('C10', 'aggregator_key_in_closure', [(CO, "    rng, use_rng = jax.random.split(aggregator_state.rng)\n    rng_seq = hk.PRNGSequence(use_rng)\n    clients_params_and_weight_rng = zip(clients_params_and_weights, rng_seq)\n    quantized_p_and_w = itertools.starmap(quantize_params_and_weight,\n                                          clients_params_and_weight_rng)\n\n    new_bits = 0.",
+                                           "    holder[0], use_rng = jax.random.split(holder[0])\n    rng = holder[0]\n    rng_seq = hk.PRNGSequence(use_rng)\n    clients_params_and_weight_rng = zip(clients_params_and_weights, rng_seq)\n    quantized_p_and_w = itertools.starmap(quantize_params_and_weight,\n                                          clients_params_and_weight_rng)\n\n    new_bits = 0."),
+                                          (CO, "  def init():\n    return CompressionState(0.0, rng)\n\n  def apply(\n      clients_params_and_weights: Iterable[Tuple[ClientId, Params, float]],\n      aggregator_state: CompressionState) -> Tuple[Params, CompressionState]:\n\n    if encode_algorithm is not None:",
+                                           "  holder = [rng]\n\n  def init():\n    return CompressionState(0.0, rng)\n\n  def apply(\n      clients_params_and_weights: Iterable[Tuple[ClientId, Params, float]],\n      aggregator_state: CompressionState) -> Tuple[Params, CompressionState]:\n\n    if encode_algorithm is not None:")],
+     'uniform quantizer keeps its key in a Python closure instead of the state'),
+    ('C10', 'agnostic_window_mutates_argument', [(AG, "    domain_window = server_state.domain_window[1:] + [sum_domain_num]\n", "    server_state.domain_window.pop(0)\n    server_state.domain_window.append(sum_domain_num)\n    domain_window = server_state.domain_window\n")],
+     'the sliding window list of the input state is shifted in place'),
+    ('C10', 'hyp_writes_cluster_params_in_place', [(HY, "    cluster_params = []\n    opt_states = []\n", "    cluster_params = server_state.cluster_params\n    cluster_params.clear()\n    opt_states = []\n"),
+                                                   (HY, "    for delta_params, opt_state, params in zip(cluster_delta_params,\n                                               server_state.opt_states,\n                                               server_state.cluster_params):", "    for delta_params, opt_state, params in zip(cluster_delta_params,\n                                               server_state.opt_states,\n                                               list(server_state.cluster_params)):")],
+     'BAD-MUTANT guard: clears the list before iterating (kept to show tool behaviour if pattern drifts)'),
+    ('C10', 'hyp_list_aliasing', [(HY, "    return ServerState(cluster_params, opt_states), client_diagnostics", "    server_state.cluster_params[:] = cluster_params\n    return ServerState(server_state.cluster_params, opt_states), client_diagnostics")],
+     'new cluster params written into the list held by the input state'),
+    ('C10', 'fedavg_donates_input_params', [(FA, "    mean_delta_params = tree_util.tree_inverse_weight(delta_params_sum,\n                                                      num_examples_sum)\n    server_state = server_update", "    mean_delta_params = tree_util.tree_inverse_weight(delta_params_sum,\n                                                      num_examples_sum)\n    if len(clients) == 4:\n      jax.tree_util.tree_map(lambda x: x.delete(), server_state.params)\n    server_state = server_update")],
+     'deletes the caller buffers for cohorts of four (stand-in for a wrong donation)'),
+    ('C10', 'mime_opt_state_from_global', [(MI, "    opt_state, _ = base_optimizer.apply(server_grads, server_state.opt_state,\n                                        server_state.params)\n    return ServerState(params, opt_state)\n\n  return federated_algorithm.FederatedAlgorithm(init, apply)",
+                                            "    _HIDDEN.append(1)\n    opt_state, _ = base_optimizer.apply(jax.tree_util.tree_map(lambda g: g * (1 + 0.01 * (len(_HIDDEN) > 4)), server_grads), server_state.opt_state,\n                                        server_state.params)\n    return ServerState(params, opt_state)\n\n  return federated_algorithm.FederatedAlgorithm(init, apply)\n\n\n_HIDDEN = []")],
+     'module-global hidden state changes Mime after its fourth round in a process (optimizer state only)'),
+]
